@@ -49,6 +49,7 @@ def learn_unit(wid: str, sid: int, want=("c01", "c02", "c05")) -> dict:
             "order": None,
             "derive": {
                 "seed": core.grid("present", wid, sid),
+                "sub_seed": core.grid("subsample", wid, sid),
                 "perm_jobs": fl["perm_jobs"],
                 "dup": fl["dup"],
                 "subsample": fl["subsample"],
@@ -70,8 +71,9 @@ def derive_order(n_src2: int, n_src: int, d: dict) -> list[int]:
     r = random.Random(d["seed"])
     idx = list(range(n_src))
     if d.get("subsample") and n_src2 > 1:
-        k = r.randint(1, n_src2)
-        idx = sorted(r.sample(range(n_src2), k))
+        rs = random.Random(d.get("sub_seed", d["seed"]))
+        k = rs.randint(1, n_src2)
+        idx = sorted(rs.sample(range(n_src2), k))
     if d.get("perm_jobs"):
         r.shuffle(idx)
     if d.get("dup") and idx:
